@@ -19,7 +19,7 @@ sys.path.insert(0, os.path.dirname(os.path.dirname(os.path.abspath(__file__))))
 import vlib
 from gen import fuzz
 
-ASAN_ENV = dict(os.environ, ASAN_OPTIONS='detect_leaks=0:abort_on_error=0:exitcode=99:symbolize=1:detect_stack_use_after_return=0',
+ASAN_ENV = dict(os.environ, ASAN_OPTIONS='detect_leaks=0:abort_on_error=0:exitcode=99:symbolize=1:detect_stack_use_after_return=0:fast_unwind_on_fatal=0',
                 UBSAN_OPTIONS='print_stacktrace=1:halt_on_error=1')
 TIMEOUT = 30
 
@@ -38,9 +38,16 @@ def run_prog(cmd, cwd, timeout=TIMEOUT, stack_kb=8192):
         except subprocess.TimeoutExpired:
             return 'timeout', ''
     rc, err = once(stack_kb)
+    for kb in (6000, 3000, 1500, 700):
+        # the unwinder sometimes fails exactly at the overflowing frame: the same bytes with another stack size name the recursion
+        if 'stack-overflow' in err and '<empty stack>' in err:
+            rc, err = once(kb)
     if rc == 'timeout':
         # unbounded recursion whose every level also grows the text looks like a hang: a small stack shows what it is
         rc2, err2 = once(256)
+        for kb in (200, 400, 150):
+            if 'stack-overflow' in err2 and '<empty stack>' in err2:
+                rc2, err2 = once(kb)
         if rc2 != 'timeout' and 'stack-overflow' in err2:
             return rc2, err2
     return rc, err
